@@ -455,11 +455,43 @@ fn window_tags(stages: &[StageRt], op: &Op, base_off: usize, src_len_before: usi
 }
 
 pub fn run(sc: &Scenario) -> Outcome {
-    if sc.batched {
-        run_impl::<Vec<VectorDiff<It>>>(sc)
-    } else {
-        run_impl::<VectorDiff<It>>(sc)
+    if !sc.batched {
+        return run_impl::<VectorDiff<It>>(sc);
     }
+    let mut out = run_impl::<Vec<VectorDiff<It>>>(sc);
+    // C13, last sentence: with fixed parameters and no lag, the batched stream delivers the same diffs in the same order
+    // as the plain one. Run the plain twin of this history and compare everything that was delivered.
+    let c13 = matches!(FOCUS.get(), Some(Some(f)) if f == "C13") || matches!(FOCUS.get(), None | Some(None));
+    let comparable = c13 && sc.cap >= 16 && sc.steps.len() < sc.cap && sc.final_drain && sc.abandon_at.is_none() && !sc.stages.iter().any(|s| s.is_dynamic());
+    if comparable {
+        let twin = Scenario { batched: false, ..sc.clone() };
+        let o2 = run_impl::<VectorDiff<It>>(&twin);
+        match (&mut out.failure, &o2.failure) {
+            (None, None) => {
+                let a: Vec<String> = out.final_log.iter().flatten().cloned().collect();
+                let b: Vec<String> = o2.final_log.iter().flatten().cloned().collect();
+                if a != b {
+                    out.failure = Some(Failure {
+                        property: "C13",
+                        classification: format!("{}/flavours-differ", sc.stages.last().map(|s| s.name()).unwrap_or("subscriber")),
+                        what: "with fixed parameters and no lag the batched stream does not deliver the same diffs in the same order as the plain stream".to_string(),
+                        step: sc.steps.len(),
+                        expected: format!("{:?}", b),
+                        observed: format!("{:?}", a),
+                        also: vec![],
+                    });
+                }
+            }
+            (Some(f), None) => {
+                // the batched flavour goes wrong where the plain one does not
+                if f.property != "C13" && !f.also.contains(&"C13") {
+                    f.also.push("C13");
+                }
+            }
+            _ => {}
+        }
+    }
+    out
 }
 
 trait Flavour: Item {
